@@ -282,7 +282,8 @@ theorem C19_text_raw (c : HtmlCtx) (parent : Option Tree) (text : Str) (pn : Nat
   simp [htmlTextValue, hpn, h]
 
 /-- A requested CDATA-section element (not `script` / `style`): the text is written as CDATA
-    sections, each ending at its first `]]>`, whose contents concatenate to the text. -/
+    sections, each ending at its first `]]>` (and `&#xD;` between sections for a carriage return),
+    which read back as the text. -/
 theorem C19_text_cdata (c : HtmlCtx) (parent : Option Tree) (text : Str) (pn : Nat)
     (hpn : parentElementName parent = some pn) (hraw : c.h.noEscape.matches c.env pn = false)
     (hcd : c.cdata.contains pn = true) :
@@ -294,8 +295,9 @@ theorem C19_text_cdata (c : HtmlCtx) (parent : Option Tree) (text : Str) (pn : N
   rw [hv]
   have hO : cdataOpen = ['<','!','[','C','D','A','T','A','['] := by decide
   have hS : cdataSplit = [']',']',']',']','>'] ++ cdataOpen ++ ['>'] := by decide
+  have hR : cdataCr = [']',']','>'] ++ ['&','#','x','D',';'] ++ cdataOpen := by decide
   have hC : cdataClose = [']',']','>'] := by decide
-  have h := cdataGo_sections hO hS hC text 0 0 (by omega) (by intro; rfl)
+  have h := cdataGo_sections hO hS hR hC text 0 0 (by omega) (by intro; rfl)
   simp only [List.replicate_zero, List.nil_append, Nat.zero_add] at h
   unfold cdataSectionsContent serializeCdata
   rw [hO]
